@@ -398,7 +398,17 @@ fn run_open_case(ctx: &mut Ctx, case_seed: u64) {
         10 => (510 + rng.usize(6), "above-twice"),
         _ => (caps_tlv_sum(base), "pool-set"),
     };
-    let capability = if cls == "pool-set" { base.clone() } else { open_caps(&mut rng, base, target) };
+    let mut capability = if cls == "pool-set" { base.clone() } else { open_caps(&mut rng, base, target) };
+    if rng.chance(1, 40) {
+        // a single capability whose value does not fit its one-octet length
+        let n = 256 + rng.usize(200);
+        capability.truncate(3);
+        capability.push(rustybgp_packet::Capability::Unknown {
+            code: 201,
+            bin: rng.bytes(n),
+        });
+        ctx.rep.count("open:single-capability-over-255");
+    }
     let as4 = capability.iter().find_map(|c| if let rustybgp_packet::Capability::FourOctetAsNumber(a) = c { Some(*a) } else { None });
     let as_number = match as4 {
         Some(a) => a,
